@@ -775,7 +775,8 @@ class Backend:
         if feed:
             reasons.append('to feed input')
 
-        if can_use_env and reasons == ['to set env'] and shutil.which('env'):
+        # env(1) would read a program whose path contains '=' as one more assignment
+        if can_use_env and reasons == ['to set env'] and shutil.which('env') and '=' not in es.cmd_args[0]:
             envlist = []
             for k, v in env.get_env({}).items():
                 envlist.append(f'{k}={v}')
